@@ -181,3 +181,88 @@ Section Sqrt.
     destruct (Qmult_integral _ _ H0); assumption.
   Qed.
 End Sqrt.
+
+(* ---- the depth column: biweight location of the samples' depths, without the flat pseudo-sample ------------- *)
+Definition depth_column (files : list sample) (i : nat) : list Q :=
+  map (fun s => nth i (s_depth s) 0) (sort_samples files).
+
+Lemma ref_biloc_depth dcol : (1 <= length dcol)%nat -> ref_biloc dcol == consensus_depth dcol.
+Proof.
+  intros Hl. destruct dcol as [|x [|y t]]; cbn in Hl; [lia| |].
+  - reflexivity.
+  - unfold consensus_depth. apply ref_biloc_spec. cbn. lia.
+Qed.
+
+Lemma load_block_dcolumns hap build sexes skip files bins logr depths bc :
+  load_block hap build sexes skip files = BlkOk bins logr depths ->
+  In bc (block_cols bins logr depths) ->
+  files <> [] /\ bins = block_bins files /\
+  exists i, (i < length bins)%nat /\ bc_bin bc = nth i bins (bc_bin bc) /\
+            bc_col bc = block_column hap build sexes skip files i /\
+            bc_dcol bc = depth_column files i.
+Proof.
+  intros Hb Hin. destruct (load_block_columns _ _ _ _ _ _ _ _ _ Hb Hin) as (Hne & Eb & _).
+  destruct (load_block_ok _ _ _ _ _ _ _ _ Hb) as (Ebins & _ & Hok).
+  destruct (In_block_cols _ _ _ _ Hin) as (i & Hi & Ebc).
+  assert (Hbne : bins <> []) by (intro E; rewrite E in Hi; cbn in Hi; lia).
+  destruct (Hok Hbne) as (_ & El & Ed).
+  split; [exact Hne|]. split; [exact Eb|]. exists i. split; [exact Hi|]. split.
+  - rewrite Ebc at 1. reflexivity.
+  - split.
+    + rewrite Ebc. unfold bc_col. cbn [fst snd]. rewrite El, column_cons.
+      unfold block_column. cbv zeta. rewrite <- Ebins. rewrite map_map. reflexivity.
+    + rewrite Ebc. unfold bc_dcol. cbn [snd]. rewrite Ed. unfold column, depth_column. rewrite map_map. reflexivity.
+Qed.
+
+Lemma pool_cols_origin_depth hap build sexes targets antis bc :
+  In bc (pool_cols hap build sexes targets antis) ->
+  exists skip files i,
+    ((skip = true /\ files = targets) \/ (skip = false /\ files = antis /\ antis <> [])) /\
+    files <> [] /\ (i < length (block_bins files))%nat /\
+    bc_bin bc = nth i (block_bins files) (bc_bin bc) /\
+    bc_dcol bc = depth_column files i.
+Proof.
+  unfold pool_cols. intros H.
+  assert (Hblk : forall skip files,
+             In bc (match load_block hap build sexes skip files with
+                    | BlkOk b l d => block_cols b l d | BlkErr _ => [] end) ->
+             files <> [] /\ exists i, (i < length (block_bins files))%nat /\
+               bc_bin bc = nth i (block_bins files) (bc_bin bc) /\
+               bc_dcol bc = depth_column files i).
+  { intros skip files Hin.
+    destruct (load_block hap build sexes skip files) as [m|b l d] eqn:E; [destruct Hin|].
+    destruct (load_block_dcolumns _ _ _ _ _ _ _ _ _ E Hin) as (Hne & Eb & i & Hi & H1 & _ & H3).
+    split; [exact Hne|]. exists i. rewrite <- Eb. auto. }
+  destruct antis as [|a antis'].
+  - destruct (Hblk true targets H) as (Hne & i & Hi & H1 & H2).
+    exists true, targets, i. split; [left; auto|]. auto.
+  - apply in_app_or in H. destruct H as [H|H].
+    + destruct (Hblk true targets H) as (Hne & i & Hi & H1 & H2).
+      exists true, targets, i. split; [left; auto|]. auto.
+    + destruct (Hblk false (a :: antis') H) as (Hne & i & Hi & H1 & H2).
+      exists false, (a :: antis'), i. split; [right; split; [reflexivity|split; [reflexivity|discriminate]]|]. auto.
+Qed.
+
+(* every row's depth is the biweight location (the value itself for one file) of the depths the files of its block
+   hold at its bin, in sample-id order; the flat pseudo-sample does not enter *)
+Theorem pool_row_depth hap build sexes targets antis rows r :
+  pool hap build sexes targets antis = ROk rows -> In r rows ->
+  exists skip files i,
+    ((skip = true /\ files = targets) \/ (skip = false /\ files = antis /\ antis <> [])) /\
+    files <> [] /\ (i < length (block_bins files))%nat /\
+    (forall d, ref_key r = key_of (nth i (block_bins files) d)) /\
+    length (depth_column files i) = length files /\
+    r_depth r == consensus_depth (depth_column files i).
+Proof.
+  intros Hp Hr. destruct (pool_ok _ _ _ _ _ _ Hp) as (Erows & _).
+  rewrite Erows in Hr. apply sort_regions_In in Hr. apply in_map_iff in Hr.
+  destruct Hr as (bc & <- & Hbc).
+  destruct (pool_cols_origin_depth _ _ _ _ _ _ Hbc) as (skip & files & i & Ho & Hne & Hi & Hb & Hd).
+  exists skip, files, i. split; [exact Ho|]. split; [exact Hne|]. split; [exact Hi|].
+  assert (Hlen : length (depth_column files i) = length files).
+  { unfold depth_column. rewrite map_length. symmetry. apply Permutation_length, sort_samples_perm. }
+  split; [|split; [exact Hlen|]].
+  - intros d. rewrite (consensus_key bc), Hb. f_equal. apply nth_indep. exact Hi.
+  - destruct bc as [[b col] dcol]. unfold bc_dcol in Hd. cbn [snd] in Hd. cbn [consensus r_depth].
+    rewrite Hd. apply ref_biloc_depth. rewrite Hlen. destruct files; [congruence|cbn; lia].
+Qed.
